@@ -1,4 +1,5 @@
 import NunavutVerif.Model.Html
+import NunavutVerif.Model.HtmlPage
 import NunavutVerif.Gen.HtmlTpl
 import NunavutVerif.Proto
 /-!
@@ -20,6 +21,13 @@ encoding of `Proto` (`-` = empty), lists of strings `|`-separated (`!` = empty l
   `accept <root template name> <toks>`                    → `1`/`0`   is the tag-event sequence a rendering of the term?
   `entryids <tree>` / `nsentryids <tree>`                 → `|`-list; tree = `;`-separated prefix form
   `lexstay <state> <s>`                                   → `1`/`0`   does `s` keep the tokenizer in `state`?
+Round 2 (reference inventory; `<nsd>` = `;`-separated prefix form of a namespace tree with entries, see `parseNsD`):
+  `pageitems <nsd>`                                       → `|`-list of `attribute=value` strings: the page of that namespace
+  `typeitems <comps> <major> <minor>`                     → the same for a type page
+  `sitepages <k> <nsd>…`                                  → `|`-list of the paths (`/`-joined) of all files of k runs
+  `sitelinks <k> <nsd>…`                                  → `|`-list of `path<TAB>href<TAB>verdict` for every relative link of the
+                                                            site; verdict `ok` | `nofrag` (page exists, id missing) | `nopage`
+  `cssident <s>` / `urlsafe <s>`                          → `1`/`0`
 -/
 open NunavutVerif NunavutVerif.Html NunavutVerif.Proto
 
@@ -122,6 +130,79 @@ def parseTrees : Nat → Nat → List String → Option (List NsTree × List Str
     pure (t :: ts, r2)
 end
 
+mutual
+/-- `c;<comps>;<major>;<minor>;<hps>;<service>;<k>;<ent>*k` | `a;<str(element_type)>;<k>;<ent>*k` -/
+def parseEnt : Nat → List String → Option (Ent × List String)
+  | 0, _ => none
+  | f + 1, "c" :: comps :: ma :: mi :: hps :: svc :: k :: rest => do
+    let ct ← mkType comps ma mi hps
+    let sv ← decBool svc
+    let n ← k.toNat?
+    let (es, r) ← parseEnts f n rest
+    pure (.comp ct sv es, r)
+  | f + 1, "a" :: es :: k :: rest => do
+    let s ← decodeStr es
+    let n ← k.toNat?
+    let (el, r) ← parseEnts f n rest
+    pure (.arr s el, r)
+  | _, _ => none
+def parseEnts : Nat → Nat → List String → Option (List Ent × List String)
+  | _, 0, r => some ([], r)
+  | 0, _, _ => none
+  | f + 1, k + 1, r => do
+    let (e, r1) ← parseEnt f r
+    let (es, r2) ← parseEnts f k r1
+    pure (e :: es, r2)
+end
+
+mutual
+/-- `n;<name>;<k>;<ent>*k;<m>;<nsd>*m` -/
+def parseNsD : Nat → List String → Option (NsD × List String)
+  | 0, _ => none
+  | f + 1, "n" :: name :: k :: rest => do
+    let nm ← decList name
+    let kt ← k.toNat?
+    let (ts, r1) ← parseEnts 64 kt rest
+    match r1 with
+    | m :: r2 => do
+      let km ← m.toNat?
+      let (cs, r3) ← parseNsDs f km r2
+      pure (.node nm ts cs, r3)
+    | [] => none
+  | _, _ => none
+def parseNsDs : Nat → Nat → List String → Option (List NsD × List String)
+  | _, 0, r => some ([], r)
+  | 0, _, _ => none
+  | f + 1, k + 1, r => do
+    let (t, r1) ← parseNsD f r
+    let (ts, r2) ← parseNsDs f k r1
+    pure (t :: ts, r2)
+end
+
+def decNsD (s : String) : Option NsD :=
+  match parseNsD 64 (s.splitOn ";") with
+  | some (t, []) => some t
+  | _ => none
+
+def renderItem : Item → Str
+  | .id s => "id=".toList ++ s
+  | .href h => "href=".toList ++ h
+  | .dataTarget s => "data-target=#".toList ++ s
+  | .onclick s none => "onclick=toggleCollapse(event, '".toList ++ s ++ "')".toList
+  | .onclick s (some r) => "onclick=toggleCollapse(event, '".toList ++ s ++ "', '".toList ++ r ++ "')".toList
+  | .aria s => "aria-controls=".toList ++ s
+  | .for_ s => "for=".toList ++ s
+  | .jsSel s => "script=#".toList ++ s
+
+def siteLinks (files : List (List Str × List Item)) : List Str :=
+  files.flatMap fun f => f.2.filterMap fun it =>
+    it.relLink.map fun h =>
+      let verdict := match resolveIn files f.1 h with
+        | some (_, _, true) => "ok"
+        | some (_, _, false) => "nofrag"
+        | none => "nopage"
+      joinWith '/' f.1 ++ '\t' :: h ++ '\t' :: verdict.toList
+
 def decState (s : String) : Option LexSt :=
   match s with
   | "data" => some .data
@@ -180,6 +261,20 @@ def answer (line : String) : String :=
     let q ← decState st
     let cs ← decodeStr s
     pure (bit (cs.all fun ch => lexStep q ch == q))
+  | ["pageitems", t] => orBad do pure (encList ((nsPageItems (← decNsD t)).map renderItem))
+  | ["typeitems", c, ma, mi] => orBad do pure (encList ((typePageItems (← mkType c ma mi "0")).map renderItem))
+  | "sitepages" :: k :: ts => orBad do
+    let n ← k.toNat?
+    if ts.length ≠ n then none
+    let runs ← ts.mapM decNsD
+    pure (encList ((site runs).map fun f => joinWith '/' f.1))
+  | "sitelinks" :: k :: ts => orBad do
+    let n ← k.toNat?
+    if ts.length ≠ n then none
+    let runs ← ts.mapM decNsD
+    pure (encList (siteLinks (site runs)))
+  | ["cssident", s] => orBad do pure (bit (isCssIdent (← decodeStr s)))
+  | ["urlsafe", s] => orBad do pure (bit (urlSafe (← decodeStr s)))
   | _ => "bad-op"
 
 def main : IO Unit := serve answer
